@@ -153,6 +153,7 @@ class _StepHelper(loopcut.Helper):
             elif isinstance(old, np.ndarray):
                 setattr(s, nm, _fresh(nm + "_h", old))
         self.tn = s.tn
+        self.head = {nm: getattr(s, nm) for nm in self.state}
         self.head_len = len(loc[self.lists[0]])
 
     def back_edge(self, loc):
